@@ -4,10 +4,10 @@ package main
 // are registered under each of them (same construct keys, different rule ids).
 
 import (
-	"os"
 	"fmt"
 	"go/token"
 	"go/types"
+	"os"
 	"strings"
 
 	"golang.org/x/tools/go/ssa"
@@ -826,7 +826,9 @@ func checkUnwindCoversStep(c *Ctx, rule string) {
 		walk(arg)
 		if os.Getenv("SHOVELCHECK_DEBUG") != "" {
 			fmt.Fprintf(os.Stderr, "unwind: cells=%v leaves=%v\n", cells, leaves)
-			for _, f := range reg.Funcs() { fmt.Fprintf(os.Stderr, "  region fn %s\n", f) }
+			for _, f := range reg.Funcs() {
+				fmt.Fprintf(os.Stderr, "  region fn %s\n", f)
+			}
 		}
 		for _, l := range leaves {
 			b, isB := l.(*ssa.BinOp)
@@ -1054,10 +1056,38 @@ func checkRequiredFieldsIndependent(c *Ctx, rule string) {
 	arf := w.Fn("shovel/config", "(*Integration).AddRequiredFields")
 	fBlock := w.Field("shovel/config", "Integration", "Block")
 	fCols := w.Field("wpg", "Table", "Columns")
+	// the helper that adds one required field: the function reachable from AddRequiredFields that
+	// appends to both ig.Block and the table's columns (a function literal or a method: add = ig.require)
 	var add *ssa.Function
-	for _, a := range arf.AnonFuncs {
-		if len(a.Params) == 2 {
-			add = a
+	{
+		res0 := NewResolver(w)
+		cands := append([]*ssa.Function{}, arf.AnonFuncs...)
+		withClosures(arf, func(f *ssa.Function) {
+			for _, ci := range callsIn(f) {
+				for _, cal := range res0.Callees(ci) {
+					for _, tf := range unwrapBound(cal) {
+						if tf != arf && tf.Pkg != nil && tf.Pkg == arf.Pkg && tf.Blocks != nil {
+							cands = append(cands, tf)
+						}
+					}
+				}
+			}
+		})
+		for _, a := range cands {
+			hasB, hasC := false, false
+			allInstrs(a, func(in ssa.Instruction) {
+				if st, ok := in.(*ssa.Store); ok {
+					switch f, _ := fieldOf(st.Addr); f {
+					case fBlock:
+						hasB = true
+					case fCols:
+						hasC = true
+					}
+				}
+			})
+			if hasB && hasC && add == nil {
+				add = a
+			}
 		}
 	}
 	if add == nil {
@@ -1116,7 +1146,11 @@ func checkRequiredFieldsIndependent(c *Ctx, rule string) {
 		}
 		return ""
 	}
-	var hasCalls []*ssa.Call
+	type absTest struct {
+		v    ssa.Value
+		kind string
+	}
+	var hasCalls []absTest
 	for _, ci := range callsIn(add) {
 		call, ok := ci.(*ssa.Call)
 		if !ok {
@@ -1125,18 +1159,91 @@ func checkRequiredFieldsIndependent(c *Ctx, rule string) {
 		if b, isB := call.Type().Underlying().(*types.Basic); !isB || b.Kind() != types.Bool {
 			continue
 		}
-		if kind(call) != "" {
-			hasCalls = append(hasCalls, call)
+		if k := kind(call); k != "" {
+			hasCalls = append(hasCalls, absTest{call, k})
 		}
 	}
+	// … or found flags: a boolean merged from `false` and comparisons of an element of one of the
+	// two collections (`for i := 0; i < len(ig.Block) && !has; i++ { has = ig.Block[i].Name == name }`)
+	allInstrs(add, func(in ssa.Instruction) {
+		ph, ok := in.(*ssa.Phi)
+		if !ok {
+			return
+		}
+		if b, isB := ph.Type().Underlying().(*types.Basic); !isB || b.Kind() != types.Bool {
+			return
+		}
+		k, okFlag := "", true
+		for _, lf := range phiLeaves(ph) {
+			switch x := lf.Val.(type) {
+			case *ssa.Const:
+				if x.Value == nil || x.Value.String() != "false" {
+					// `found = true` under a comparison: judged by the comparison that guards the edge
+					if lf.Pred == nil || lf.Phi == nil {
+						okFlag = false
+						continue
+					}
+					hit := false
+					allInstrs(add, func(in2 ssa.Instruction) {
+						b, isB := in2.(*ssa.BinOp)
+						if !isB || b.Op != token.EQL {
+							return
+						}
+						ck := ""
+						for _, side := range []ssa.Value{b.X, b.Y} {
+							root, _ := fieldChain(side)
+							if s, _, isE := elemOf(root); isE {
+								if lf2, _ := loadedField(stripConv(s)); lf2 != nil && fieldKind(lf2) != "" {
+									ck = fieldKind(lf2)
+								}
+							}
+						}
+						if ck == "" {
+							return
+						}
+						t, _ := boolEdges(b)
+						if edgeGuarded(add, lf.Pred, lf.Phi.Block(), t) {
+							hit = true
+							k = ck
+						}
+					})
+					if !hit {
+						okFlag = false
+					}
+				}
+			case *ssa.BinOp:
+				ck := ""
+				if x.Op == token.EQL {
+					for _, side := range []ssa.Value{x.X, x.Y} {
+						root, _ := fieldChain(side)
+						if s, _, isE := elemOf(root); isE {
+							if lf2, _ := loadedField(stripConv(s)); lf2 != nil && fieldKind(lf2) != "" {
+								ck = fieldKind(lf2)
+							}
+						}
+					}
+				}
+				if ck == "" {
+					okFlag = false
+				} else {
+					k = ck
+				}
+			default:
+				okFlag = false
+			}
+		}
+		if okFlag && k != "" {
+			hasCalls = append(hasCalls, absTest{ph, k})
+		}
+	})
 	indep := func(st ssa.Instruction, own, other string) (bool, string) {
 		if st == nil {
 			return false, "append not found"
 		}
 		var ownF []Edge
 		for _, h := range hasCalls {
-			t, f := boolEdges(h)
-			switch kind(h) {
+			t, f := boolEdges(h.v)
+			switch h.kind {
 			case own:
 				ownF = append(ownF, f...)
 			case other:
@@ -1190,8 +1297,11 @@ func requiredFieldSites(res *Resolver, arf *ssa.Function) map[string][]reqSite {
 		for _, ci := range callsIn(f) {
 			isLocal := false
 			for _, cal := range res.Callees(ci) {
-				if cal.Parent() == arf {
-					isLocal = true
+				for _, tf := range unwrapBound(cal) {
+					// a function literal of arf, or a function of its package (`add = ig.require`)
+					if tf.Parent() == arf || (tf != arf && tf.Pkg != nil && tf.Pkg == arf.Pkg && tf.Blocks != nil) {
+						isLocal = true
+					}
 				}
 			}
 			if !isLocal || len(ci.Common().Args) != 2 {
@@ -1563,4 +1673,24 @@ func isSelectedOf(v ssa.Value) bool {
 	}
 	f := staticCallee(call)
 	return f != nil && f.Name() == "Selected" && f.Signature.Recv() != nil && repoNamedIs(f.Signature.Recv().Type(), "dig", "Event")
+}
+
+// unwrapBound: a bound-method wrapper stands for the method it calls.
+func unwrapBound(f *ssa.Function) []*ssa.Function {
+	if f == nil {
+		return nil
+	}
+	if f.Synthetic == "" || f.Blocks == nil {
+		return []*ssa.Function{f}
+	}
+	var out []*ssa.Function
+	for _, ci := range callsIn(f) {
+		if cal := staticCallee(ci); cal != nil {
+			out = append(out, cal)
+		}
+	}
+	if len(out) == 0 {
+		return []*ssa.Function{f}
+	}
+	return out
 }
